@@ -62,7 +62,7 @@ def gsd_bounded(rec, item):
 
 
 # ----------------------------------------------------------------------------- GSD, loop-body induction + progress
-def _gsd_body_paths(nc, ns=1):
+def _gsd_body_paths(nc, ns=1, big=False):
     """One iteration of the correction loop from an ARBITRARY loop-head state satisfying the invariant.
     Arrays are cell-major (index cell*ns + species), as the function receives them."""
     X = [z3.Real("x_%d" % i) for i in range(nc * ns)]
@@ -110,13 +110,13 @@ def _gsd_body_paths(nc, ns=1):
 
     def body(I):
         for x in X:
-            I.assume(z3.And(x >= 0, x <= 50))
+            I.assume(z3.And(x >= 100, x <= 1000) if big else z3.And(x >= 0, x <= 50))      # big: the normal-approximation branch of the draws
         I.check_lib_pre = False
         I.lazy_merge = False
         I.loop_hook = hook
         return I.call_fn("GenerateStochasticDistribution", [Vec(list(X), "double", name="mesh_x"), nc, ns, 42])
 
-    _BYPASS[(nc, ns)] = bypass = []
+    _BYPASS[(nc, ns, big)] = bypass = []
     for pr in explore(program(), body, max_paths=400, budget_s=120, unwind=6):
         # a path on which the function RETURNS without the correction loop ever being entered (for any species): the loop
         # contract says nothing about it, so the function's postcondition is proved on it directly
@@ -128,10 +128,10 @@ def _gsd_body_paths(nc, ns=1):
 _BYPASS = {}
 
 
-def gsd_induction(rec, nc=2, ns=1):
-    desc = "GSD correction loop, one iteration from an arbitrary invariant state, cells=%d species=%d" % (nc, ns)
+def gsd_induction(rec, nc=2, ns=1, big=False):
+    desc = "GSD correction loop, one iteration from an arbitrary invariant state, cells=%d species=%d%s" % (nc, ns, " (amounts in [100,1000]: normal branch)" if big else "")
     rec.structure(desc)
-    X, Q, dc, D, results = _gsd_body_paths(nc, ns)
+    X, Q, dc, D, results = _gsd_body_paths(nc, ns, big)
     n = 0
     for r in results:
         I = r["I"]
@@ -175,7 +175,7 @@ def gsd_induction(rec, nc=2, ns=1):
             else:
                 rec.oblig(name, "inconclusive", "solver unknown/timeout", time.time() - t0, desc)
     # paths that never enter the correction loop: the result must already satisfy the function's postcondition
-    for (Ib, out) in _BYPASS.get((nc, ns), []):
+    for (Ib, out) in _BYPASS.get((nc, ns, big), []):
         feas, _ = Ib.check()
         if feas != "sat":
             continue
@@ -207,7 +207,7 @@ def gsd_induction(rec, nc=2, ns=1):
         tot = I.toreal(e["tot"])
         dl, d0 = I.tosym(e["delta"]), I.tosym(e["dc"])
         ssum = sum((sto[i * ns + r["sp"]] for i in range(nc)), z3.RealVal(0))
-        init = z3.And(*[a >= 0 for a in sto], *[z3.Implies(sto[i] > 0, X[i] > 0) for i in range(nc * ns)], d0 == 0, dl > 0,
+        init = z3.And(*[a >= 0 for a in sto], *[a == z3.ToReal(z3.ToInt(a)) for a in sto], *[z3.Implies(sto[i] > 0, X[i] > 0) for i in range(nc * ns)], d0 == 0, dl > 0,
                       (ssum - tot == z3.ToReal(dl)) if r["rm"] else (tot - ssum == z3.ToReal(dl)))
         t0 = time.time()
         sv.add(z3.Not(init))
@@ -296,7 +296,8 @@ from strengths import *
 from vt.glue import real_engine
 net = RDNetwork(species=[Species("A"), Species("B"), Species("C")], reactions=[])
 bad = 0
-for x in ([0.6, 0.0, 1.7, 0.4, 0.0, 0.9, 3.2, 0.0, 0.3, 0.0, 1.1, 0.2, 0.7, 2.4, 0.0, 0.5, 0.0, 0.8], [5.5, 0.2, 0.0, 0.4, 0.3, 0.1, 0.0, 0.0, 7.7]):
+for x in ([0.6, 0.0, 1.7, 0.4, 0.0, 0.9, 3.2, 0.0, 0.3, 0.0, 1.1, 0.2, 0.7, 2.4, 0.0, 0.5, 0.0, 0.8], [5.5, 0.2, 0.0, 0.4, 0.3, 0.1, 0.0, 0.0, 7.7],
+          [150.5, 0.0, 320.25, 0.0, 410.75, 99.5, 1000.0, 120.125, 0.0]):      # amounts >= 100 with a fractional part: normal-approximation branch
     nc = len(x) // 3
     s = RDSystem(net, RDGridSpace(w=nc, h=1, d=1, cell_vol=1), state=x)
     for opt in ("tauleap", "gillespie"):
@@ -517,7 +518,7 @@ def run(rec):
     for fn in ("GenerateStochasticDistribution", "engineexport_initialize_grid/graph (init-state section)", "SpeciesFirstToMeshFirstArray", "MkVec", "RDScript.init_state_processing via LibRDEngine.setup"):
         rec.encoded(fn)
     q = rec.tier == "quick"
-    items = [("induction", 2), ("progress", 2), ("induction", 3), ("progress", 3), ("induction", 2, 2), ("progress", 2, 2), ("induction", 3, 2)]
+    items = [("induction", 2), ("progress", 2), ("induction", 3), ("progress", 3), ("induction", 2, 2), ("progress", 2, 2), ("induction", 3, 2), ("induction", 2, 1, True)]
     if not q:
         # bounded unwinding of the whole function (mixed integer/real queries: many stay inconclusive and are listed as such)
         items += [("induction", 4), ("progress", 4), ("gsd", 2, 1, 2, False), ("gsd", 3, 1, 2, False), ("gsd", 2, 1, 2, True)]
